@@ -605,6 +605,11 @@ func (sc *scenario) coq() string {
 		ops = append(ops, fmt.Sprintf("OEvent %d (mkEv %s %s %s %s) (mkObs %s %s %s %s %s %s)",
 			ev.WS, kit.Bool(ev.Sync), rowsCoq(arg, nil), rowsCoq(ev.Creates, ev.Singles), rowsCoq(ev.Updates, nil),
 			kit.Bool(o.Accepted), pairsCoq(o.NewIDs), rowsCoq(o.Arg, nil), rowsCoq(o.Creates, nil), rowsCoq(o.Updates, nil), rowsCoq(o.Records, nil)))
+		if ev.Via == "cmd" && o.Logged {
+			// the command failed behind the PLog write: the processor drops the partition and recovers it from the
+			// PLog on the next command (appPartitionRestartScheduled)
+			ops = append(ops, "ORestart")
+		}
 	}
 	return kit.List(ops)
 }
